@@ -4,7 +4,9 @@ package main
 
 import (
 	"fmt"
+	"go/constant"
 	"go/types"
+	"sort"
 	"strings"
 
 	"golang.org/x/tools/go/ssa"
@@ -129,6 +131,69 @@ func runC02(c *Ctx) {
 		}
 		_ = s
 		c.Check(bad == "", "C02.R1", shortFn(probe)+": the whole bucket is scanned", probe.Pos(), "complete range, no early exit", bad)
+	}
+	// ---------- R9: which network rules the DNS engine loads ----------
+	{
+		c.Rule("C02.R9", "PDT", "a network rule is host-level iff every enabled option is one of the host-level options", 1)
+		kMask, okM := a.constInt("rules", "OptionHostLevelRulesOnly")
+		g := NewGate(c.P)
+		g.Inline = inlineOnly()
+		s := g.Eval(ihl)
+		u := g.U
+		f := g.ParamExprs(ihl)[0]
+		res := g.RetExpr(s, 0)
+		// every option constant of the package
+		var bits []int64
+		if sp := c.P.SPkg[pkgPath("rules")]; sp != nil {
+			for _, m := range sp.Members {
+				if nc, ok := m.(*ssa.NamedConst); ok && typeStr(nc.Type()) == "rules.NetworkRuleOption" {
+					if v, ok := constant.Int64Val(nc.Value.Value); ok && v != 0 && v&(v-1) == 0 {
+						bits = append(bits, v)
+					}
+				}
+			}
+		}
+		sort.Slice(bits, func(i, j int) bool { return bits[i] < bits[j] })
+		bad := ""
+		if !okM || len(bits) < 8 {
+			bad = "UNDECIDED: option constants not resolved"
+		}
+		n := 0
+		// the decision with no option set: the non-option conjuncts of the predicate
+		var r0 *E
+		if bad == "" {
+			r0 = u.Subst(res, map[string]*E{u.Field(f, "enabledOptions", nil).key: u.ConstVal(constantInt(0), types.Typ[types.Uint64])})
+			if r0.Op != "bool" || r0.B == False {
+				bad = "UNDECIDED/violated: with no option enabled the rule is never host-level: " + clip(u.Show(r0), 100)
+			}
+		}
+		try := func(v int64) {
+			if bad != "" {
+				return
+			}
+			sub := map[string]*E{u.Field(f, "enabledOptions", nil).key: u.ConstVal(constantInt(v), types.Typ[types.Uint64])}
+			r := u.Subst(res, sub)
+			n++
+			want := v&^kMask == 0
+			if r.Op != "bool" || (r.B != r0.B && r.B != False) {
+				bad = fmt.Sprintf("UNDECIDED: the result does not fold for options %#x: %s", v, clip(u.Show(r), 100))
+			} else if (r.B == r0.B) != want {
+				bad = fmt.Sprintf("for enabled options %#x the rule is host-level=%v, documented %v (host-level options mask %#x): a rule with a modifier the DNS level cannot honour is loaded into the DNS engine, or a plain one is not", v, r.B == r0.B, want, kMask)
+			}
+		}
+		try(0)
+		for _, b := range bits {
+			try(b)
+		}
+		for _, b1 := range bits {
+			for _, b2 := range bits {
+				if b1 < b2 {
+					try(b1 | b2)
+				}
+			}
+		}
+		c.Paths += n
+		c.Check(bad == "", "C02.R9", shortFn(ihl)+": enabledOptions &^ hostLevelMask == 0", ihl.Pos(), fmt.Sprintf("decision evaluated on %d option sets (none, every single option, every pair)", n), bad)
 	}
 	importRules(c, runC13, map[string]string{"C13.R2": "C02.R7"}, nil)
 	importRules(c, runC18, map[string]string{"C18.R1": "C02.R8", "C18.R2": "C02.R8", "C18.R3": "C02.R8", "C18.R4": "C02.R8", "C18.R5": "C02.R8", "C18.R10": "C02.R8"},
